@@ -29,6 +29,9 @@
 (*            usage errors (emptyarg: an empty word right after the command, *)
 (*            gtree mkdir "" --dry-run: a stray argument like any other)    *)
 (*   file "null": stdin is /dev/null (cron, CI): the empty document          *)
+(*   file "devstdin": --file /dev/stdin (opens, cannot seek): like stdin     *)
+(*   target "reg/sub": a path below a regular file (Stat fails, not with     *)
+(*            "does not exist"): mkdir and verify fail, nothing crashes      *)
 (*   desc:  template --description                                          *)
 (*   sub may also be "version", "help", "none" (no argument at all: the     *)
 (*          help text, exit 0) and "bogus" (an unknown subcommand)          *)
@@ -102,6 +105,7 @@ FlagToks(inv) ==
          \o (CASE inv.file = "dash" -> <<FlagTok("file", "-", sp)>>
                [] inv.file = "existing" -> <<FlagTok("file", "in.md", sp)>>
                [] inv.file = "missing" -> <<FlagTok("file", "nope.md", sp)>>
+               [] inv.file = "devstdin" -> <<FlagTok("file", "/dev/stdin", sp)>>
                [] OTHER -> <<>>)
          \o Switch("dry-run", inv.dryrun, inv)
          \o [i \in 1..Len(SeqOfSet(inv.exts)) |-> FlagTok("extension", SeqOfSet(inv.exts)[i], sp)]
@@ -169,7 +173,7 @@ Meaning(inv) ==
              \cup {<<"massive-timeout", "0s">> : x \in IF inv.usage = "timeout0" THEN {1} ELSE {}}
              \cup {<<"massive-timeout", "soon">> : x \in IF inv.usage = "timeoutbad" THEN {1} ELSE {}}
              \cup {<<"watch", "true">> : x \in IF inv.watch THEN {1} ELSE {}}
-             \cup {<<"file", CASE inv.file = "dash" -> "-" [] inv.file = "existing" -> "in.md" [] OTHER -> "nope.md">> : x \in IF inv.file \notin {"stdin", "null"} THEN {1} ELSE {}}
+             \cup {<<"file", CASE inv.file = "dash" -> "-" [] inv.file = "existing" -> "in.md" [] inv.file = "devstdin" -> "/dev/stdin" [] OTHER -> "nope.md">> : x \in IF inv.file \notin {"stdin", "null"} THEN {1} ELSE {}}
              \cup {<<"dry-run", "true">> : x \in IF inv.dryrun THEN {1} ELSE {}}
              \cup {<<"extension", e>> : e \in inv.exts}
              \cup {<<"target-dir", inv.target>> : x \in IF inv.target # "" THEN {1} ELSE {}}
@@ -214,6 +218,8 @@ LibResult(inv, m) ==
     \* --massive-timeout 1ns: the context has expired before the pipeline starts; the call reports it
     [] inv.sub = "output" /\ inv.mtimeout -> "err"
     [] inv.doc = "malformed" -> "err"
+    \* a target below a regular file: Mkdir cannot make it, Verify cannot read it (dry run and output never look at it)
+    [] inv.target = "reg/sub" /\ d.op \in {"mkdir", "verify"} /\ inv.doc # "empty" -> "err"
     [] inv.doc = "empty" -> IF d.op = "verify" THEN "nil" ELSE "nil"
     \* "dot": a root named "." (the target directory itself) with the well-formed document's roots as its children
     [] inv.doc = "dot" /\ d.op = "mkdir" -> IF inv.target = "" THEN "err" ELSE "nil"   \* "." exists unless the target itself is new
